@@ -610,7 +610,12 @@ fn run(ctx: &Ctx) {
     if !ctx.run_prop("one_token_corrupted", RULE_CORRUPT, ctx.cases(3000, 300_000), strat_corrupt, check_corrupt) {
         return;
     }
-    ctx.run_prop("byte_edits", RULE_MUT, ctx.cases(4000, 600_000), strat_mutated, check_mutated);
+    if !ctx.run_prop("byte_edits", RULE_MUT, ctx.cases(4000, 600_000), strat_mutated, check_mutated) {
+        return;
+    }
+    if ctx.tier == Tier::Thorough {
+        ctx.run_fuzz("libfuzzer_dsl_text", "dsl_text", (600_000.0 * ctx.scale) as u64, 4000, "coverage-guided libFuzzer campaign over DSL text (seed corpus = the 46 repository fixtures): whatever parses must be complete and re-serialisable (C13), and parse -> validate -> calculate -> format must end in a result or clean error (C15); evaluations = executions, distinct_nontrivial = distinct corpus entries");
+    }
 }
 
 fn replay(name: &str, case: &Value) -> Option<Verdict> {
